@@ -15,7 +15,10 @@ use std::sync::Mutex;
 use std::time::Instant;
 
 pub const WORKERS: usize = 16;
-pub const VERIF_DIR: &str = "/verif";
+/// root of the verification tree: /verif, or the snapshot a background run (`vp run`) works in
+pub fn verif_dir() -> String {
+    std::env::var("VERIF_HOME").unwrap_or_else(|_| "/verif".to_string())
+}
 
 #[derive(Clone, Copy, PartialEq, Eq, Debug)]
 pub enum Tier {
@@ -108,7 +111,7 @@ pub fn hash_of<H: Hash>(h: &H) -> u64 {
 }
 
 pub fn load_known(property: &str) -> Vec<Known> {
-    let path = format!("{}/known_findings.txt", VERIF_DIR);
+    let path = format!("{}/known_findings.txt", verif_dir());
     let mut out = vec![];
     if let Ok(text) = std::fs::read_to_string(path) {
         for line in text.lines() {
@@ -543,7 +546,7 @@ impl Ctx {
         // violations -> replay files
         let mut viol_out = vec![];
         if !inner.violations.is_empty() {
-            std::fs::create_dir_all(format!("{}/replays", VERIF_DIR)).ok();
+            std::fs::create_dir_all(format!("{}/replays", verif_dir())).ok();
         }
         for v in &inner.violations {
             let body = json!({
@@ -556,7 +559,7 @@ impl Ctx {
             let path = if self.replaying {
                 std::env::var("VCHECK_REPLAY_PATH").unwrap_or_else(|_| "-".into())
             } else {
-                let p = format!("{}/replays/{}-{:016x}.json", VERIF_DIR, self.id, hash_of(&(&v.sig, &text)));
+                let p = format!("{}/replays/{}-{:016x}.json", verif_dir(), self.id, hash_of(&(&v.sig, &text)));
                 std::fs::write(&p, &text).ok();
                 p
             };
@@ -595,8 +598,8 @@ impl Ctx {
                 "wall_s": (wall * 1000.0).round() / 1000.0,
                 "violations": inner.violations.len(),
             });
-            std::fs::create_dir_all(format!("{}/evidence", VERIF_DIR)).ok();
-            let path = format!("{}/evidence/{}.json", VERIF_DIR, self.id);
+            std::fs::create_dir_all(format!("{}/evidence", verif_dir())).ok();
+            let path = format!("{}/evidence/{}.json", verif_dir(), self.id);
             std::fs::write(&path, serde_json::to_string_pretty(&ev).unwrap()).expect("write evidence");
         }
         println!(
